@@ -206,6 +206,21 @@ def judge(path, expect, cfg, tags):
             if abs(float(gt) - m) > 1e-9:
                 V.append({"what": "interface reference tension is not the mean density of its mesh edges", "detail": {"interface": ids[:8], "got": float(gt), "exp": m}})
                 break
+        if sorted(int(x) for x in df["id"]) != sorted(fr.big_edges):
+            V.append({"what": "the reference-tension table (with_border=True) does not list every interface of the frame exactly once",
+                      "detail": {"listed": sorted(int(x) for x in df["id"])[:12], "interfaces": sorted(fr.big_edges)[:12]}})
+        # the default call (borders left out): the same values, for exactly the interfaces that are not external
+        df2, ex2 = fsutil.call(fr.get_gt_tensions)
+        if ex2 is not None:
+            V.append({"what": "get_gt_tensions() raised", "detail": fsutil.exc_str(ex2)})
+        else:
+            tags.append("gt_default_checked")
+            full = {int(b): float(g) for b, g in zip(df["id"], df["gt"])}
+            exp_ids = sorted(b for b, be in fr.big_edges.items() if not be.external)
+            got = {int(b): float(g) for b, g in zip(df2["id"], df2["gt"])}
+            if sorted(got) != exp_ids or any(abs(got[b] - full[b]) > 1e-12 for b in got if b in full):
+                V.append({"what": "get_gt_tensions() without borders is not the with_border table restricted to the non-external interfaces",
+                          "detail": {"listed": sorted(got)[:12], "expected": exp_ids[:12]}})
     return V
 
 
